@@ -58,6 +58,7 @@ op_strategy = st.one_of(
                            "arch": st.sampled_from(CELL_ARCHES), "fresh": st.booleans()}),
     st.just({"op": "roundtrip"}),
     st.just({"op": "dumps"}),
+    st.sampled_from([{"op": "roundtrip", "as": "1.0"}, {"op": "roundtrip", "as": "1.1"}]),       # the content goes through an older format's reader
 )
 history_strategy = st.fixed_dictionaries({"pool": pool_strategy(), "version": st.sampled_from(["0.0", "1.0", "1.1", "1.2", "1.2", "1.1"]),
                                            "ops": st.lists(op_strategy, min_size=1, max_size=25)})
@@ -137,7 +138,15 @@ def history_case(case):
             stored = [r for entries in model.values() for r in entries.values()]
             collision = any(ident(a) == ident(b) and a["checksums"] != b["checksums"] for a in stored for b in stored)
             again = Images()
-            if collision:
+            if op.get("as"):
+                # the same content presented as an older document: whatever the reader, a loaded manifest is a current one
+                doc = json.loads(text)
+                doc["header"] = {"version": "1.0"} if op["as"] == "1.0" else {"version": "1.1", "type": "productmd.images"}
+                text = json.dumps(doc)
+            if collision and op.get("as") == "1.0":
+                # recorded finding KF-C05-images-1.0-collision: a 1.0 document with a colliding pair is accepted; leave that class to C05
+                pass
+            elif collision:
                 # only reachable when the adds were made below 1.1: the written file contains a colliding pair
                 refuses("load-colliding-dump", (ValueError,), again.loads, text)
             else:
@@ -168,6 +177,8 @@ def history_case(case):
         labels.append("accepted-equal-identity")
     if any(o["op"] == "roundtrip" for o in case["ops"]):
         labels.append("roundtrip")
+    if any(o.get("as") for o in case["ops"]):
+        labels.append("reload-as-older-format")
     if any(o["op"] == "dumps" for o in case["ops"]):
         labels.append("dumps-and-continue")
     return {"nontrivial": bool(refused and accepted_equal), "labels": labels}
